@@ -2,6 +2,7 @@
 # tools/seedall.sh: run every stored seeded change against the quick tier of its own property's check;
 # writes seeded/REGRESSION.json (which were caught, by which oracle) -- the sensitivity regression of the whole suite
 cd /verif
+export SEED_TRIAGE=${SEED_TRIAGE:-1}   # yes/no mode; SEED_TRIAGE=0 runs the full quick tier with shrinking and replay
 out=/dev/shm/seedall.$$; : > $out
 for d in seeded/*/; do
   name=$(basename $d)
